@@ -132,6 +132,16 @@ CLAIMED = {
         "Trusted: get_dummies column order (sorted level names); PrefixFree naming assumption.",
         "DESIGN.md section 5 C16",
     ),
+    "C08": (
+        "Lean 4 theorems about a model of the summary arithmetic (loss / gain ranges, monotone rounding) and of the model-object state as a fold over aggregate computations + stage-level correspondence and API-level history runs",
+        "natsum_ordered / natsum_bounded / natsum_pred_formula / called_no_uncertainty / wrong_size_rejected hold for every list of contests, "
+        "draws, calls, stops, levels and base values; natsum_history_independent / natsum_no_fail prove that after any sequence of aggregate "
+        "computations containing the contest level the state the summary reads is what the contest level alone leaves. The real "
+        "get_national_summary_estimates is diffed against the model on assigned state (near-tied contests, few draws); full bootstrap runs "
+        "with every arrangement of finer aggregates must give identical summaries.",
+        "Trusted: compute_bootstrap_errors is an oracle; non-default modes (sigmoid, no correlation) only get the ordering / bound predicates.",
+        "DESIGN.md section 5 C08",
+    ),
 }
 
 PENDING_REASON = "check not built yet in this session (model and correspondence in progress); not claimed until it is"
